@@ -23,7 +23,8 @@ PLAN_2Q = {'shipped': False, 'uniform': ['WO8a', 'DRQ8c', 'FP16'],
            'perop': ['NQ', 'WO4c', 'DRQ8t', 'DRQ4c', 'FP16'], 'io': ['none']}
 PLAN_3 = {'uniform': ['WO8c', 'DRQ8c'], 'perop': ['NQ', 'WO8a', 'DRQ8c'],
           'io': ['none']}
-PLANS = {'p1': PLAN_1, 'p2': PLAN_2, 'p2q': PLAN_2Q, 'p3': PLAN_3}
+PLAN_C = {'uniform': ['WO8c', 'WO4a', 'FP16', 'DRQ8c'], 'io': ['none']}
+PLANS = {'pc': PLAN_C, 'p1': PLAN_1, 'p2': PLAN_2, 'p2q': PLAN_2Q, 'p3': PLAN_3}
 
 
 def cases(tier):
@@ -45,6 +46,12 @@ def cases(tier):
               'dk': ['mix', 'big'] if tier == 'quick' else ['mix', 'pos', 'big',
                                                            'tiny']})
     yield c
+  # linear chains deeper than the DAG bound: several rewritten weights in one
+  # subgraph (op-id bookkeeping across many insertions)
+  for n in ((4, 5) if tier == 'quick' else (4, 5, 6)):
+    for g in eg.chains(n, ['FULLY_CONNECTED', 'CONV_2D', 'TANH']):
+      if sum(o['t'] != 'TANH' for o in g['subgraphs'][0]['ops']) >= 3:
+        yield {'ir': g, 'rp': 'pc', 'dk': ['mix']}
   for c in universe.graph_cases([(3, eg.TTOPO, 'first',
                                   'none' if tier == 'quick' else 'one')]):
     if not any(o['t'] in WOPS for o in c['ir']['subgraphs'][0]['ops']):
